@@ -288,7 +288,13 @@ def check_case(case, ctx):
             except Exception as exc:  # noqa
                 ctx.fail("held-eval-raises:%s" % type(exc).__name__, "round %d %s: %s" % (r, label, exc))
                 continue
-            want, mag = c02.sem_value(obj, val, dim)
+            try:
+                want, mag = c02.sem_value(obj, val, dim)
+            except KeyError:
+                # a leaf that a held object is made of is no longer in the registries the valuation is read from
+                ctx.fail("leaf-dropped-from-registry", "round %d: %s contains a leaf point / expression that the class registries "
+                         "no longer list after the re-solve (its value can no longer follow the latest solution)" % (r, label))
+                break
             got = np.asarray(got, dtype=float)
             want = np.asarray(want, dtype=float)
             if got.shape != want.shape or (got.size and float(np.max(np.abs(got - want))) > 1e-9 * (1 + mag)):
